@@ -208,6 +208,7 @@ def run(model: Model, rep: Report) -> None:
             r14.check(bool(lookup), site(f14, c), f14.qualname, f"`{unparse(par)[:70] if par is not None else unparse(c)}`: id() used " + ("as a lookup key" if lookup else "as a value"), why="the address of an object becomes part of a value that is ordered or compared: where objects are allocated depends on everything the process did before, so equal candidates are ranked differently from run to run and after other documents")
     if n14 == 0:
         raise AnchorMissing("no use of id() found (group_textboxes keys its serial numbers by id)")
+    page_flags_rule(model, rep, "C12-R15")
     # ---------------------------------------------------------------- R1
     r1 = rep.rule("C12-R1", "EFFECTS", "global state inventory: no function writes module/class-level state outside the reviewed memo tables", 20)
     writes = global_writes(model, inv)
@@ -284,6 +285,49 @@ def run(model: Model, rep: Report) -> None:
     _memo_purity(model, rep)
     # ---------------------------------------------------------------- R8
     font_cache_key_rule(model, rep, "C12-R8")
+
+
+def page_flags_rule(model: Model, rep: Report, rid: str) -> None:
+    """A converter lives for the whole document; receive_layout is called once per page.  A flag it raises while walking a page
+    ("a word is being assembled") and tests at the start of the next item must be down again when the page is done, or the
+    next page starts in the middle of the previous one: its output then depends on which pages were extracted before it."""
+    r = rep.rule(rid, "TYPESTATE", "converters: a flag raised while a page is rendered (and tested by the rendering of the next item) is lowered before the page element is closed - no pending output is carried into the next page", 1)
+    n_inst = 0
+    for q, f in sorted(model.funcs.items()):
+        if not (q.startswith("pdfminer.converter.") and q.endswith(".receive_layout")):
+            continue
+        cls_q = q.rsplit(".", 1)[0]
+        nodes = list(ast.walk(f.node))
+        raised = {t.attr for n in nodes if isinstance(n, ast.Assign) and isinstance(n.value, ast.Constant) and n.value.value is True for t in n.targets if isinstance(t, ast.Attribute) and unparse(t.value) == "self"}
+        tested = {a.attr for n in nodes if isinstance(n, ast.If) for a in ast.walk(n.test) if isinstance(a, ast.Attribute) and unparse(a.value) == "self"}
+        for flag in sorted(raised & tested):
+            n_inst += 1
+
+            def lowers(st: ast.stmt, flag: str = flag, cls_q: str = cls_q, depth: int = 0) -> bool:
+                if isinstance(st, ast.Assign) and isinstance(st.value, ast.Constant) and st.value.value is False and any(unparse(t) == f"self.{flag}" for t in st.targets):
+                    return True
+                if isinstance(st, ast.Expr) and isinstance(st.value, ast.Call) and (dotted(st.value.func) or "").startswith("self.") and depth < 2:
+                    m = model.funcs.get(cls_q + "." + (dotted(st.value.func) or "")[5:])
+                    if m is not None:
+                        return any(lowers(s2, depth=depth + 1) for s2 in m.node.body)  # type: ignore[attr-defined]
+                if isinstance(st, ast.If) and not st.orelse and "".join(unparse(st.test).split()) == f"self.{flag}":
+                    return any(lowers(s2, depth=depth) for s2 in st.body)
+                return False
+
+            # the branch that renders the page: isinstance(item, LTPage)
+            page_arms = [n for n in nodes if isinstance(n, ast.If) and "LTPage" in unparse(n.test) and "isinstance" in unparse(n.test)]
+            if not page_arms:
+                # no page branch: the flag has to be lowered at the top level of receive_layout after the walk
+                ok = any(lowers(st) for st in f.node.body)  # type: ignore[attr-defined]
+                r.check(ok, site(f), q, f"self.{flag} is lowered before receive_layout returns", why=f"self.{flag} may still be set when the next page arrives")
+                continue
+            arm = page_arms[0]
+            loops = [i for i, st in enumerate(arm.body) if isinstance(st, ast.For)]
+            after = arm.body[loops[-1] + 1 :] if loops else []
+            ok = any(lowers(st) for st in after) or any(lowers(st) for st in f.node.body)  # type: ignore[attr-defined]
+            r.check(ok, site(f, arm), q, f"self.{flag} is lowered after the page's children are rendered (directly or by flushing the pending output)", why=f"self.{flag} may still be set when the page is closed: what was being assembled is written into the next page (or never), so a page extracted after another differs from the same page extracted alone")
+    if n_inst == 0:
+        raise AnchorMissing("no converter raises a flag in receive_layout (HOCRConverter.within_chars expected)")
 
 
 def _has_instance_state_writers(model: Model, cls: str) -> bool:
